@@ -929,3 +929,5 @@ m('C20', '_check_time: checked times discarded (defect F25)', TIME,
   "        time, freq, ft, ftarg = empymod.utils.check_time(\n                np.array(self._time, dtype=float), self.signal, self.ft,\n                self.ftarg, self.verb)",
   "        _, freq, ft, ftarg = empymod.utils.check_time(\n                self.time, self.signal, self.ft,\n                self.ftarg, self.verb)\n        time = self._time",
   'C20.F4.handover')
+m('C13', '_set_nf_re: float() of a one-entry array (defect F26)', SURV,
+  "                value = float(value.item())", "                value = float(value)", 'C13.N3.validate')
